@@ -12,6 +12,7 @@ package main
 
 import (
 	"fmt"
+	"strconv"
 	"strings"
 	"unicode"
 )
@@ -120,7 +121,11 @@ func lex(s string) ([]tok, error) {
 			if j >= len(s) {
 				return nil, fmt.Errorf("unterminated string at %d", i)
 			}
-			toks = append(toks, tok{"str", s[i+1 : j], i})
+			lit := s[i+1 : j]
+			if u, err := strconv.Unquote("\"" + lit + "\""); err == nil {
+				lit = u
+			}
+			toks = append(toks, tok{"str", lit, i})
 			i = j + 1
 		default:
 			ops := []string{"<==>", "==>", "::", "==", "!=", "<=", ">=", "&&", "||", "<", ">", "+", "-", "*", "/", "%", "!", "(", ")", "[", "]", ".", ",", "?", ":", "{", "}"}
